@@ -160,6 +160,9 @@ def _w(chunk):
     r = core.Res()
     n_by_k, items = chunk
     for k, G, t in items:
+        if core.expired():
+            r.caps.append('deadline reached inside a chunk')
+            break
         live = sorted(O.has_arcs(G))
         starts = list(range(4)) if k == 1 else (live if len(live) <= 16 else live[:8] + live[-8:])
         check_graph(r, k, G, n_by_k[k], starts, thin=4 if k == 1 else 99)
